@@ -6077,8 +6077,8 @@ memory_cast = getattr(memoryview, "cast", lambda *x: x[0])
 
 
 def modified_base64(s):
-    s_utf7 = s.encode("utf-7")
-    return s_utf7[1:-1].replace(b"/", b",")
+    s_b64 = binascii.b2a_base64(s.encode("utf-16-be")).rstrip(b"\n=")
+    return s_b64.replace(b"/", b",")
 
 
 def modified_unbase64(s):
